@@ -22,4 +22,12 @@ def queries(tier):
                     unwind={"harness": 16, "mpt_message_read": 3}, 
                     bounds="one decoder call from any resume state: block code 1..255, position 0..254; decoded window <= 3 bytes, slack 1..3, <= 3 new arbitrary input bytes",
                     outside="more than 3 new bytes per call in this shape; decoded windows above 3 bytes (no memory is proportional to code/position)"))
+    for (nm, dec, var) in DECS:
+        if tier == "quick" and nm != "cobs_r":
+            continue
+        qs.append(Q("decstep_preview_" + nm, "C03/decstep.c", units=CODEC,
+                    harness_defines={"DEC": dec, "VARIANT": var, "PREVIEW": 1}, unwind_default=6,
+                    unwind={"harness": 16, "mpt_message_read": 3}, timeout=900 if tier == "quick" else None,
+                    bounds="as decstep, with a preview call (sourcelen 0, as issued by mpt_queue_peek) before the regular call: same delivery as without it",
+                    outside="see decstep"))
     return qs
